@@ -105,8 +105,16 @@ def gen(rng, tier):
                 if got >= 2:
                     break
         # byte strings that are not valid keys
-        for bad in (b"", b"\x02" + bytes(32), b"\x05" + bytes(32), bytes(33), b"\x02" + b"\xff" * 32, bytes(31), bytes(65), b"\x04" + bytes(64),
-                    bytes(rng.randrange(256) for _ in range(33)), bytes(rng.randrange(256) for _ in range(32))):
+        xy = []
+        if curve.startswith("ed25519"):
+            # the 64-byte x || y form of a REAL curve point (accepted by the point classes, never a public key encoding)
+            from harness.props.addr_common import PUB as _PUB
+            try:
+                xy = [_PUB[curve].FromBytes(pub_forms(curve, rand_priv(rng, curve))[0]).Point().Raw().ToBytes()]
+            except Exception:  # noqa
+                xy = []
+        for bad in xy + list((b"", b"\x02" + bytes(32), b"\x05" + bytes(32), bytes(33), b"\x02" + b"\xff" * 32, bytes(31), bytes(65), b"\x04" + bytes(64),
+                    bytes(rng.randrange(256) for _ in range(33)), bytes(rng.randrange(256) for _ in range(32)))):
             kw = dict(params[0])
             if fmt in ("xmr", "xmrint"):
                 kw["pub_vkey"] = hx(pub_forms(curve, rand_priv(rng, curve))[0])
